@@ -12,7 +12,7 @@ IGNORED_DESCR = re.compile(
 )
 
 CHECK_RE = re.compile(
-    r"^Check (\d+): (\S+)\s*\n\s+- Status: (\w+)\s*\n\s+- Description: \"(.*?)\"\s*\n(?:\s+- Location: (.*?)\n)?",
+    r"^Check (\d+): ([^\n]+?)\s*\n\s+- Status: (\w+)\s*\n\s+- Description: \"(.*?)\"\s*\n(?:\s+- Location: (.*?)\n)?",
     re.M | re.S,
 )
 TAG_RE = re.compile(r"^C\d\d")
